@@ -5,6 +5,7 @@ import (
 	"fmt"
 	"regexp"
 	"strconv"
+	"sync"
 )
 
 // NCRequest is one client message as the strict decoder of the server model saw it.
@@ -318,7 +319,32 @@ func Frame10(payload []byte) []byte {
 }
 
 // HelloXML builds a server hello.
+// WrapCapabilityText is consulted by HelloXML through HelloXMLWrapped only.
+var WrapCapabilityText = false
+
+// HelloXMLWrapped is HelloXML (pretty) with the text of every capability on a line of its own.
+func HelloXMLWrapped(caps []string, sessionID string, prefix string) string {
+	helloMu.Lock()
+	defer helloMu.Unlock()
+
+	WrapCapabilityText = true
+
+	defer func() { WrapCapabilityText = false }()
+
+	return helloXML(caps, sessionID, prefix, true, false)
+}
+
+var helloMu sync.Mutex
+
+// HelloXML renders a server hello.
 func HelloXML(caps []string, sessionID string, prefix string, pretty, decl bool) string {
+	helloMu.Lock()
+	defer helloMu.Unlock()
+
+	return helloXML(caps, sessionID, prefix, pretty, decl)
+}
+
+func helloXML(caps []string, sessionID string, prefix string, pretty, decl bool) string {
 	var b bytes.Buffer
 
 	nl, ind := "", ""
@@ -341,6 +367,13 @@ func HelloXML(caps []string, sessionID string, prefix string, pretty, decl bool)
 	fmt.Fprintf(&b, "%s<%scapabilities>%s", ind, p, nl)
 
 	for _, c := range caps {
+		if WrapCapabilityText {
+			// the capability on a line of its own between its tags (IOS-XE writes some of its capabilities like this)
+			fmt.Fprintf(&b, "%s%s<%scapability>\n        %s\n      </%scapability>%s", ind, ind, p, c, p, nl)
+
+			continue
+		}
+
 		fmt.Fprintf(&b, "%s%s<%scapability>%s</%scapability>%s", ind, ind, p, c, p, nl)
 	}
 
